@@ -8,7 +8,7 @@ import re
 def main(payload):
     from fst import FST
     from fst.match import (M, MList, MDict, MQ, MQSTAR, MQPLUS, MQOPT, MTAG, MOR, MAND, MNOT, MName, MConstant,
-                           MCall, MCB, MRE, MTYPES, MAST)
+                           MCall, MCB, MRE, MTYPES, MAST, MMAYBE, MImportFrom, MReturn, MSubscript, MStore, MLoad)
     quick = payload.get('tier', 'quick') == 'quick'
     ev = 0
     distinct = set()
@@ -107,6 +107,74 @@ def main(payload):
                 fail(f'backref:{rx}:{s or "-"}', f'back-reference pattern ~ {rx!r} on {s!r}: match {m is not None}, regex '
                      f'{r is not None}')
             distinct.add(('backref', rx, s))
+
+    # back-references into a quantified, tagged sub-pattern with static tags: a capture made by an iteration that the
+    # greedy quantifier later gives back must not survive (regex: the group keeps its LAST kept iteration)
+    for s in seqs:
+        for label, mk, rx in (
+                ('q*static', lambda: MList([MQSTAR(M(x=...), st=1), MTAG('x')]), r'(?:(.))*\1'),
+                ('q+static', lambda: MList([MQPLUS(M(x=...), st=1), MTAG('x')]), r'(?:(.))+\1'),
+                ('q*plain', lambda: MList([MQSTAR(M(x=...)), MTAG('x')]), r'(?:(.))*\1'),
+                ('q{1,2}static', lambda: MList([MQ(M(x=...), min=1, max=2, st=1), MTAG('x'), MQSTAR]), r'(?:(.)){1,2}\1.*')):
+            ev += 1
+            try:
+                m = mk().match(targets[s])
+            except Exception as e:
+                fail(f'backref.quant:{label}:{s or "-"}', f'match raised {e!r}')
+                continue
+            try:
+                r = re.fullmatch(rx, s)
+            except re.error:
+                continue
+            if (m is None) != (r is None):
+                fail(f'backref.quant:{label}:{s or "-"}', f'quantified capture + back-reference ~ {rx!r} on {s!r}: match '
+                     f'{m is not None}, regex {r is not None}')
+            elif m is not None and 'static' in label and m.tags.get('st') != 1:
+                fail(f'backref.quant.static:{label}:{s or "-"}', f'static tag of the quantifier lost: {m.tags.get("st")!r}')
+            distinct.add(('backref.quant', label, s))
+
+    # MMAYBE(p) == MOR(p, None) on every kind of field value, falsy ones included (0, '', b'', False, empty list)
+    for src_m, get, pats_m in (
+            ('from m import y', lambda f: f.body[0], [lambda W: MImportFrom(module='m', level=W(1)), lambda W: MImportFrom(level=W(0))]),
+            ('from . import y', lambda f: f.body[0], [lambda W: MImportFrom(level=W(1)), lambda W: MImportFrom(level=W(0))]),
+            ('x = 0', lambda f: f.body[0].value, [lambda W: MConstant(value=W(1)), lambda W: MConstant(value=W(0))]),
+            ("x = ''", lambda f: f.body[0].value, [lambda W: MConstant(value=W('a')), lambda W: MConstant(value=W(''))]),
+            ('x = False', lambda f: f.body[0].value, [lambda W: MConstant(value=W(True)), lambda W: MConstant(value=W(False))]),
+            ('f()', lambda f: f.body[0].value, [lambda W: MCall(args=W([MName('a')])), lambda W: MCall(args=W([]))]),
+            ('return', lambda f: f.body[0], [lambda W: MReturn(value=W(MName('a'))), lambda W: MReturn(value=W(None))])):
+        try:
+            node = get(FST(src_m, 'exec'))
+        except Exception:
+            continue
+        for k, mkp in enumerate(pats_m):
+            ev += 1
+            try:
+                a_ = node.match(mkp(lambda p: MMAYBE(p)))
+                b_ = node.match(mkp(lambda p: MOR(p, None)))
+            except Exception as e:
+                fail(f'maybe.raises:{src_m}:{k}', f'MMAYBE / MOR(p, None) raised {e!r}')
+                continue
+            if (a_ is None) != (b_ is None):
+                fail(f'maybe:{src_m}:{k}', f'MMAYBE(p) {"matches" if a_ else "rejects"} but MOR(p, None) '
+                     f'{"matches" if b_ else "rejects"} on {src_m!r} (pattern #{k})')
+            distinct.add(('maybe', src_m, k))
+
+    # options reach search(): search(pat, ctx=True) == filter(match(pat, ctx=True), walk)
+    for src_c in ('i = i + i', 'a[b] = a[c]', 'del x, y\nx = y', 'for t in t: t += t'):
+        f0 = FST(src_c, 'exec')
+        for pat_c in (MName(ctx=MStore), MName(ctx=MLoad), MSubscript(ctx=MStore)):
+            for ctx_opt in (True, False):
+                ev += 1
+                try:
+                    found = [id(m.matched.a) for m in f0.search(pat_c, nested=True, ctx=ctx_opt)]
+                    exp = [id(x.a) for x in f0.walk(True) if x.match(pat_c, ctx=ctx_opt)]
+                except Exception as e:
+                    fail(f'search.ctx.raises:{src_c}:{pat_c!r}:{ctx_opt}', f'raised {e!r}')
+                    continue
+                if found != exp:
+                    fail(f'search.ctx:{src_c}:{pat_c.__class__.__name__}:{ctx_opt}', f'search(ctx={ctx_opt}) yields '
+                         f'{len(found)} nodes, filtering walk() with match(ctx={ctx_opt}) gives {len(exp)}')
+                distinct.add(('search.ctx', src_c, repr(pat_c), ctx_opt))
 
     # ---------------------------------------------------------------------------------------------------------------
     # (2) structure only: formatted tree, re-laid-out tree and pure AST give the same result and tags
